@@ -107,6 +107,7 @@ def _ensures(c, copy):
     if c.is_return:
         r = c.result
         if copy:
+            out["C01: image is a dict"] = cls(r) == K("dict")
             out["C01: image is a fresh dict mapping key images to value images"] = z3.And(
                 cls(r) == K("dict"),
                 c.fresh(r),
@@ -166,7 +167,7 @@ class MappingCheckOnlyDeserialize:
 class MappingDeserialize:
     kinds = {"data": "dict", "items": "dict"}
     raises = ["ValidationError"]
-    exports = ["C01: returns iff data is an object whose every key and value conform and whose constraints hold"]
+    exports = ["C01: returns iff data is an object whose every key and value conform and whose constraints hold", "C01: image is a dict"]
 
     def requires(self, c):
         return _requires(c, "MappingMethod")
